@@ -75,6 +75,7 @@ func (G *gen) exec(fx *fixture, cs c12case, inputLen int, op string, bound uint6
 	}
 	if r.Panic != "" && !(cs.Section == "block" && cs.Entry == "raw") {
 		// a raw (ungated) validateBlock call is not reachable from the network: its panics are model predictions only
+		G.c.Hit("panic|" + cs.Section + sfx(cs.Entry) + "|" + cs.Note + "|" + r.Site) // the failure list is capped; the histogram is not
 		G.c.Fail(panicSignature(cs, r), fmt.Sprintf("panic %q at %s (%s), state %s", r.Panic, r.Site, r.Line, cs.State), cs)
 	}
 	if bound > 0 && r.Alloc > bound {
@@ -454,6 +455,34 @@ func (G *gen) messages(fx *fixture) {
 		propCase(fmt.Sprintf("pool-signer-%d:proof-garbage129", pi), p, nil, true, true, false)
 	}
 
+	// structured VRF-proof mutations (scalars at the borders of [1, N-1], points off the curve / at infinity, t = ±s·k):
+	// as proposer proof of a ProposeProof (current and next round) and of a ProposeBlock, and as seed proof of the header
+	for _, signer := range []int{0, 1} {
+		for _, v := range vrfVariants(nil, w.Keys[signer], r) {
+			for _, rd := range []uint64{head + 1, head + 2} {
+				if rd == head+2 && signer == 1 {
+					continue
+				}
+				pp := &types.ProofProposal{Proof: v.proof, Round: rd}
+				hh := crypto.SignatureHash(pp)
+				sig, _ := crypto.Sign(hh[:], w.Keys[signer])
+				proofCase(fmt.Sprintf("vrf:%s:signer-%d:round+%d", v.what, signer, rd-head), rd, v.proof, sig, nil, false)
+			}
+			if signer == 0 {
+				p := &types.BlockProposal{Block: base.Block, Proof: v.proof}
+				signProposal(p, god)
+				propCase("vrf-proposer-proof:"+v.what, p, nil, true, true, false)
+			}
+		}
+	}
+	for _, v := range vrfVariants(base.Header.ProposedHeader.SeedProof, god, r) {
+		hd := cloneProposed(base.Header.ProposedHeader)
+		hd.SeedProof = v.proof
+		p := &types.BlockProposal{Block: &types.Block{Header: &types.Header{ProposedHeader: hd}, Body: base.Body}, Proof: base.Proof}
+		signProposal(p, god)
+		propCase("vrf-seed-proof:"+v.what, p, nil, true, true, false)
+	}
+
 	// ---- Vote
 	voteCase := func(what string, v *types.Vote, raw []byte, twice bool) {
 		payload := raw
@@ -554,6 +583,13 @@ func (G *gen) messages(fx *fixture) {
 			many = append(many, &types.Header{EmptyBlockHeader: &types.EmptyBlockHeader{Height: uint64(r.Intn(1000))}})
 		}
 		rangeCase("sixty-forged-empty", many, nil, batch)
+		var vrfHdrs []*types.Header
+		for _, v := range vrfVariants(base.Header.ProposedHeader.SeedProof, god, r) {
+			hd := cloneProposed(base.Header.ProposedHeader)
+			hd.SeedProof = v.proof
+			vrfHdrs = append(vrfHdrs, &types.Header{ProposedHeader: hd})
+		}
+		rangeCase("vrf-seed-proofs", vrfHdrs, nil, batch)
 	}
 
 	// ---- Flip
